@@ -88,7 +88,7 @@ def correspond(ctx):
 def run_active(sc, thetas, mmax=2):
     from smrt import make_model, sensor_list
     sp, atm = scenes.build(sc)
-    m = make_model(sc["emmodel"], "dort", rtsolver_options=dict(n_max_stream=sc["nmax"], m_max=mmax))
+    m = make_model(sc["emmodel"], "dort", rtsolver_options=dict(n_max_stream=sc["nmax"], m_max=mmax, **sc.get("solver_options", {})))
     return m.run(sensor_list.active(sc["frequency"], list(thetas)), sp)
 
 
@@ -225,6 +225,29 @@ def low_albedo_scene(rng, em="iba", ms="exponential"):
 def oracle(ctx, hints, effort):
     rng = ctx.np
     findings, evals = {}, 0
+    # strongly scattering media of small spheres (the Rayleigh-type phase matrix with its mode-2 (h, u) terms is what multiple scattering
+    # runs on): deep single and double layers, Ku band
+    for it in range(2 if effort == "routine" else 6):
+        em = ("rayleigh", "dmrt_qca_shortrange")[it % 2]
+        nl_ = 1 + (it // 2) % 2
+        sc = dict(thickness=[round(float(v), 2) for v in rng.uniform(0.5, 3.0, nl_)], density=[round(float(v), 1) for v in rng.uniform(250, 350, nl_)],
+                  temperature=[260.0] * nl_, microstructure="sticky_hard_spheres", frequency=13e9,
+                  micro=dict(radius=[round(float(v), 6) for v in rng.uniform(3e-4, 6e-4, nl_)], stickiness=[0.2 if em != "rayleigh" else 1000.0] * nl_),
+                  emmodel=em, nmax=32, solver_options=dict(diagonalization_method="shur_forcedtriu"))   # the method the documentation recommends for radar
+        thetas = [33.0, 5.0, 47.0, 60.0]
+        try:
+            evals += 1
+            r = check_reciprocity(sc, thetas)
+        except AssertionError:
+            r = None
+        except Exception as e:  # noqa
+            from smrt.core.error import SMRTError
+            if not isinstance(e, SMRTError):
+                raise
+            r = None
+        if r:
+            key = f"{r[0]}:{em}:strong"
+            findings.setdefault(key, Finding(key, r[0] + f" in a strongly scattering {em} medium", {"kind": "reciprocity", "scene": sc, "thetas": thetas}, r[1], r[2]))
     for it in range(4 if effort == "routine" else 40):
         em, ms = [("iba", "exponential"), ("iba", "sticky_hard_spheres"), ("rayleigh", "sticky_hard_spheres"),
                   ("dmrt_qca_shortrange", "sticky_hard_spheres"), ("symsce_torquato21", "exponential")][it % (2 if effort == "routine" else 5)]
